@@ -1213,7 +1213,7 @@ Notation Inv := (OInv chk R).
 
 (** the common part of the splice and template moves: the closure at the head of pending_ooo
     has its region in the document *)
-Lemma head_region E b g k rest D rs e :
+Lemma head_region (b : vsb) g k rest D rs e :
   pending_ooo b = (g, k) :: rest -> chunks b = [] ->
   wfd D rs -> NoDup (rids rs) -> Qok chk (Qb b) rs e ->
   exists i F A B ra rb,
@@ -1237,14 +1237,16 @@ Proof.
     2:{ unfold nosync in Ns. rewrite Hc in Ns. discriminate. }
     rewrite Hc in Sc. destruct l as [|[f0 k0] l]; [|discriminate]. cbn [cof map app] in Sc.
     destruct St as [St|[s [St Sb]]]; [subst tail; discriminate|]. subst tail.
-    inversion Sc; subst s rest. rewrite Sb in Hco. cbn [app coalesce] in Hco.
-    inversion Hco; subst buf rest' po. clear Hco Sc.
+    injection St as Ev Er. subst s rest. rewrite Sb in Hco. cbn [app coalesce] in Hco.
+    injection Hco as H1 H2 H3. subst buf rest' po.
     split; [exact Hp|]. split; [constructor|].
     assert (Tb (set_pooo (set_chunks (set_sync b v) []) (pending_ooo b)) = Tb b) as ET.
     { unfold Tb. sbg. rewrite Hc, Sb. cbn. rewrite !app_nil_r. reflexivity. }
     assert (Qb (set_pooo (set_chunks (set_sync b v) []) (pending_ooo b)) = Qb b) as EQ.
     { unfold Qb. sbg. rewrite Hc. reflexivity. }
-    exists D, rs, e. rewrite ET, EQ. repeat split; auto.
+    exists D, rs, e. rewrite ET, EQ.
+    split; [exact Hrun|split; [exact W|split; [exact Nd|split; [exact Ac|split; [exact Ne|
+      split; [exact Qk|split; [exact Fl|]]]]]]].
     left. split; [auto|split; [auto|]]. exists [], []. sbg. split; [reflexivity|left; reflexivity].
   - (* async: impossible *)
     rewrite Hc in Hca. inversion Hca as [|? ? X _]; subst. contradiction.
@@ -1252,11 +1254,13 @@ Proof.
     split; [exact Hp|]. split; [rewrite Hc in Hca; inversion Hca; auto|].
     assert (Tb (set_chunks (set_pooo b (pending_ooo b ++ [(g, k)])) rest) = Tb b) as ET.
     { unfold Tb. sbg. rewrite Hc. reflexivity. }
-    exists D, rs, e. rewrite ET. split; [exact Hrun|]. repeat split; auto.
+    exists D, rs, e. rewrite ET.
+    split; [exact Hrun|split; [exact W|split; [exact Nd|split; [exact Ac|split; [exact Ne|
+      split; [|split; [exact Fl|]]]]]]].
     + eapply qok_perm; [|exact Qk]. unfold Qb. sbg. rewrite Hc. cbn [ooo_of flat_map app].
       fold (ooo_of rest). rewrite app_assoc. apply Permutation_cons_append.
     + destruct Mode as [[EE [ED [l [tail [Sc St]]]]]|[Ns Ht]].
-      * left. split; [auto|split; [rewrite ET; auto|]].
+      * left. split; [auto|split; [auto|]].
         rewrite Hc in Sc. destruct l as [|[f0 k0] l].
         -- cbn [cof map app] in Sc. destruct St as [St|[s [St Sb]]]; subst tail; discriminate.
         -- cbn [cof map app] in Sc. inversion Sc. exists l, tail. sbg. split; [auto|exact St].
@@ -1264,7 +1268,7 @@ Proof.
         -- unfold nosync in *. rewrite Hc in Ns. exact Ns.
         -- intros f0 k0 i0 Hin Eo t Ht'. rewrite Hs in Ht'. contradiction.
   - (* splice in place *)
-    destruct (head_region E b g k rest D rs e Ho Hc W Nd Qk)
+    destruct (head_region b g k rest D rs e Ho Hc W Nd Qk)
       as [i [F [A [B [ra [rb [Ei [ED [WA [WB [Ers [Nia [Nib [PF Qk']]]]]]]]]]]]]].
     destruct (resolve_step chk R d D rs e g k rest i F A B ra rb ED WA WB Ers PF Nd Ac Ne Qk' Ei Fl)
       as [t [ks [rsn [e' [S1 [S2 [S3 [S4 [S5 [S6 S7]]]]]]]]]].
@@ -1273,8 +1277,8 @@ Proof.
     (* mode A: the marker is in the buffer *)
     destruct Mode as [[EE [EDT Sh]]|[Ns Ht]].
     2:{ exfalso. destruct (find_idx_some_in _ _ _ Hfo) as [x [Hx Px]].
-        rewrite (Ht g k i (or_introl eq_refl) Ei x) in Px; [discriminate|].
-        rewrite Ho. exact Hx. }
+        assert (In (g, k) (pending_ooo b)) as Hg by (rewrite Ho; left; reflexivity).
+        rewrite (Ht g k i Hg Ei x Hx) in Px. discriminate. }
     assert (Tb b = sync_buf b) as ETb by (unfold Tb; rewrite Hc; cbn; apply app_nil_r).
     rewrite ETb in EDT. rewrite <- EDT, ED in Hfo, Hfc.
     destruct (region_found A ra B rb i F B WA Nia PF) as [F1 [F2 _]].
@@ -1302,21 +1306,22 @@ Proof.
     set (X := if oreplace (res_oclo k d) then t else F) in *.
     assert ((if oreplace (res_oclo k d) then [] else F) ++ t = X) as EX.
     { unfold X. destruct (oreplace (res_oclo k d)) eqn:Er; [reflexivity|].
-      destruct (S6 eq_refl) as [Z _]. subst t. apply app_nil_r. }
-    rewrite app_assoc, EX.
+      destruct (S6 eq_refl) as [Z _]. rewrite Z. apply app_nil_r. }
+    replace ((if oreplace (res_oclo k d) then [] else F) ++ t ++ B) with (X ++ B)
+      by (rewrite <- EX, <- app_assoc; reflexivity).
     set (b1 := set_chunks (set_sync (set_pooo b rest) (A ++ X ++ B)) (cof (rev ks))).
     assert (Tb b1 = A ++ X ++ B) as ET1
       by (unfold Tb, b1; sbg; rewrite payloads_cof; cbn; apply app_nil_r).
     split; [exact Hp|]. split; [apply nocasync_cof|].
     exists (A ++ X ++ B), (ra ++ rsn ++ rb), e'. rewrite ET1, EE. cbn [app].
-    split; [apply as_run_notpl; eapply wfd_notpl; eauto|].
+    split; [rewrite as_run_notpl by (eapply wfd_notpl; eauto); reflexivity|].
     split; [exact T1|split; [exact T2|split; [exact T3|split; [exact T4|split; [|split; [exact T6|]]]]]].
     + eapply qok_perm; [|exact T5]. unfold Qb, b1. sbg. rewrite ooo_of_cof.
       apply Permutation_app_tail. apply Permutation_rev.
     + left. split; [reflexivity|split; [reflexivity|]]. exists (rev ks), []. unfold b1. sbg.
       split; [rewrite app_nil_r; reflexivity|left; reflexivity].
   - (* template + script *)
-    destruct (head_region E b g k rest D rs e Ho Hc W Nd Qk)
+    destruct (head_region b g k rest D rs e Ho Hc W Nd Qk)
       as [i [F [A [B [ra [rb [Ei [ED [WA [WB [Ers [Nia [Nib [PF Qk']]]]]]]]]]]]]].
     destruct (resolve_step chk R d D rs e g k rest i F A B ra rb ED WA WB Ers PF Nd Ac Ne Qk' Ei Fl)
       as [t [ks [rsn [e' [S1 [S2 [S3 [S4 [S5 [S6 S7]]]]]]]]]].
@@ -1338,12 +1343,13 @@ Proof.
     split.
     { rewrite ETb in Hrun. rewrite app_assoc, as_run_app, Hrun.
       rewrite as_run_block by (eapply wfd_notpl; eauto).
-      rewrite ED, (apply_ooo_region A ra B rb i F t _ WA WB Nia Nib PF). reflexivity. }
+      rewrite ED, (apply_ooo_region A ra B rb i F t _ WA WB Nia Nib PF).
+      unfold X. destruct (oreplace (res_oclo k d)); reflexivity. }
     split; [exact T1|split; [exact T2|split; [exact T3|split; [exact T4|split; [|split; [exact T6|]]]]]].
     + unfold Qb, b1. sbg. rewrite ooo_of_cof. exact T5.
     + right. unfold b1. sbg. split; [apply payloads_cof|].
       intros f0 k0 i0 Hin Eo x Hx. rewrite !in_app_iff in Hx. cbn [In] in Hx.
-      destruct Hx as [Hx|[Hx|[Hx|[Hx|[]]]]].
+      destruct Hx as [Hx|[[Hx|[]]|[Hx|[Hx|[]]]]].
       * apply (Ht f0 k0 i0); auto. rewrite Ho. right. exact Hin.
       * subst x. reflexivity.
       * (* a marker inside the template content belongs to a new closure *)
